@@ -560,7 +560,20 @@ type mRec struct {
 	Panic   string `json:"panic,omitempty"`
 }
 
+// measure: smallest TotalAlloc delta of three runs (a background allocation during one run does not count)
 func measure(f func()) (uint64, int, string) {
+	best, st, msg := measureOnce(f)
+	for i := 0; i < 2 && st == 0; i++ {
+		if a, s2, m2 := measureOnce(f); s2 != 0 {
+			return a, s2, m2
+		} else if a < best {
+			best = a
+		}
+	}
+	return best, st, msg
+}
+
+func measureOnce(f func()) (uint64, int, string) {
 	old := debug.SetGCPercent(-1)
 	defer debug.SetGCPercent(old)
 	runtime.GC()
